@@ -1,8 +1,9 @@
 (* Properties_C14.v — property C14: factored objects mean the same as their flat expansion.
    Only statements, each closed by [exact <lemma>] and followed by Print Assumptions. *)
-From Coq Require Import List Arith.
-From AIT Require Import C14.Model C14.Spec C14.Proofs.
+From Coq Require Import List Arith QArith Lia.
+From AIT Require Import C14.Model C14.Spec C14.Proofs C14.ProofsEnum C14.ModelAlg C14.SpecAlg C14.ProofsAlg C14.ModelDDN C14.SpecDDN C14.ProofsDDN.
 Import ListNotations.
+Local Close Scope Q_scope.
 
 Theorem toIndex_toFactors : forall space id,
   Forall (fun sp => 0 < sp) space -> id < factorSpace space ->
@@ -29,8 +30,230 @@ Theorem partial_roundtrip_factors : forall ids space f,
 Proof. exact partial_roundtrip_factors_lemma. Qed.
 Print Assumptions partial_roundtrip_factors.
 
+(* ---- PartialFactorsEnumerator: every constructor mode visits the mixed-radix sequence in index
+   order, the skipped position (if any) held at 0; [pfe_visit] returns [None] only out of fuel. ---- *)
+Theorem enumerator_visits_each_once_in_order : forall F keys skipId fuel,
+  Forall (fun k => 0 < nth k F 0) keys ->
+  let e := mkPfe F keys (repeat 0 (length keys)) skipId in
+  pfe_size e < fuel ->
+  pfe_visit fuel e = Some (map (enum_nth F keys skipId) (seq 0 (pfe_size e)))
+  /\ pfe_size e = enum_count F keys skipId.
+Proof. exact enumerator_visits_lemma. Qed.
+Print Assumptions enumerator_visits_each_once_in_order.
+
+(* constructor (F, keys): exactly map (toFactorsPartial keys F) (seq 0 size) *)
+Theorem enumerator_keys_in_order : forall F keys fuel,
+  keys <> [] -> Forall (fun k => 0 < nth k F 0) keys -> factorSpacePartial keys F < fuel ->
+  pfe_visit fuel (pfe_keys F keys) = Some (map (toFactorsPartial keys F) (seq 0 (factorSpacePartial keys F)))
+  /\ pfe_size (pfe_keys F keys) = factorSpacePartial keys F.
+Proof. exact enumerator_keys_lemma. Qed.
+Print Assumptions enumerator_keys_in_order.
+
+(* constructor (F): exactly map (toFactors F) (seq 0 (factorSpace F)) *)
+Theorem enumerator_all_in_order : forall F fuel,
+  F <> [] -> Forall (fun s => 0 < s) F -> factorSpace F < fuel ->
+  pfe_visit fuel (pfe_all F) = Some (map (toFactors F) (seq 0 (factorSpace F)))
+  /\ pfe_size (pfe_all F) = factorSpace F.
+Proof. exact enumerator_all_lemma. Qed.
+Print Assumptions enumerator_all_in_order.
+
+(* constructor (F, keys, factorToSkip, missing = false) *)
+Theorem enumerator_skip_present_in_order : forall F keys skip fuel e,
+  pfe_skip F keys skip false = Some e ->
+  Forall (fun k => 0 < nth k F 0) keys -> factorSpacePartial (remove_at (pfeSkip e) keys) F < fuel ->
+  pfe_visit fuel e =
+    Some (map (fun i => insert_at (pfeSkip e) 0 (toFactorsPartial (remove_at (pfeSkip e) keys) F i))
+              (seq 0 (factorSpacePartial (remove_at (pfeSkip e) keys) F)))
+  /\ pfe_size e = factorSpacePartial (remove_at (pfeSkip e) keys) F
+  /\ nth (pfeSkip e) keys 0 = skip.
+Proof. exact enumerator_present_lemma. Qed.
+Print Assumptions enumerator_skip_present_in_order.
+
+(* constructor (F, factors, factorToSkip, missing = true) *)
+Theorem enumerator_skip_missing_in_order : forall F factors skip fuel e,
+  pfe_skip F factors skip true = Some e ->
+  Forall (fun k => 0 < nth k F 0) factors -> 0 < nth skip F 0 -> factorSpacePartial factors F < fuel ->
+  pfe_visit fuel e =
+    Some (map (fun i => insert_at (pfeSkip e) 0 (toFactorsPartial factors F i))
+              (seq 0 (factorSpacePartial factors F)))
+  /\ pfe_size e = factorSpacePartial factors F
+  /\ nth (pfeSkip e) (pfeKeys e) 0 = skip /\ remove_at (pfeSkip e) (pfeKeys e) = factors.
+Proof. exact enumerator_missing_lemma. Qed.
+Print Assumptions enumerator_skip_missing_in_order.
+
+(* "each joint value exactly once" *)
+Theorem enumerator_no_duplicates : forall F keys,
+  Forall (fun k => 0 < nth k F 0) keys ->
+  NoDup (map (toFactorsPartial keys F) (seq 0 (factorSpacePartial keys F))).
+Proof. exact enumerator_nodup_lemma. Qed.
+Print Assumptions enumerator_no_duplicates.
+
+Example ex_enumerator_nonvacuous :
+  pfe_visit 10 (pfe_keys [2;1;3] [0;2]) = Some [[0;0];[1;0];[0;1];[1;1];[0;2];[1;2]] /\
+  (exists e, pfe_skip [2;3;2] [0;2] 1 true = Some e /\ pfeSkip e = 1 /\
+             pfe_visit 10 e = Some [[0;0;0];[1;0;0];[0;0;1];[1;0;1]]) /\
+  (exists e, pfe_skip [2;3;2] [0;1;2] 0 false = Some e /\ pfe_visit 10 e = Some [[0;0;0];[0;1;0];[0;2;0];[0;0;1];[0;1;1];[0;2;1]]).
+Proof. split; [reflexivity|]. split; eexists; repeat split. Qed.
+
 (* hypotheses are satisfiable on a non-trivial space (sizes 2,1,3; size-1 factor included) *)
 Example ex_space_nonvacuous :
   Forall (fun sp => 0 < sp) [2;1;3] /\ 5 < factorSpace [2;1;3] /\ in_space [2;1;3] [1;0;2] /\
   toIndex [2;1;3] [1;0;2] = 5.
 Proof. repeat split; repeat constructor. Qed.
+
+(* ================================================================================================
+   Factored vector algebra = the operation on the flat expansions
+   (flat space fv x = sum over the bases of the entry selected by x restricted to the tag)
+   ================================================================================================ *)
+Local Open Scope Q_scope.
+
+(* merge(PartialKeys, PartialKeys) is the sorted union *)
+Theorem merge_is_sorted_union : forall lhs rhs, strict lhs -> strict rhs ->
+  strict (merge_keys lhs rhs) /\ (forall x, In x (merge_keys lhs rhs) <-> In x lhs \/ In x rhs).
+Proof. exact merge_is_sorted_union_lemma. Qed.
+Print Assumptions merge_is_sorted_union.
+
+(* FactoredVector::getValue is the flat expansion *)
+Theorem getValue_flat : forall space fv x, getValue space fv x == flat space fv x.
+Proof. exact getValue_flat_lemma. Qed.
+Print Assumptions getValue_flat.
+
+(* plus / minus / dot of two BasisFunctions ([bf_plus] = [bf_binop Qplus], ...): at every joint
+   assignment the entry of the result is the operation on the entries, for arbitrary overlapping tags *)
+Theorem bf_binop_flat : forall op space l r x,
+  bf_wf space l -> bf_wf space r -> in_space space x ->
+  entry space (bf_binop op space l r) x = op (entry space l x) (entry space r x)
+  /\ bf_wf space (bf_binop op space l r).
+Proof. exact bf_binop_flat_lemma. Qed.
+Print Assumptions bf_binop_flat.
+
+Theorem dot_flat : forall space l r x,
+  bf_wf space l -> bf_wf space r -> in_space space x ->
+  entry space (bf_dot space l r) x = entry space l x * entry space r x.
+Proof. intros space l r x Hl Hr Hx. exact (proj1 (bf_binop_flat_lemma Qmult space l r x Hl Hr Hx)). Qed.
+Print Assumptions dot_flat.
+
+(* plusEqual(FactoredVector, BasisFunction) and (FactoredVector, FactoredVector) *)
+Theorem plus_flat : forall space fv rhs x,
+  fv_wf space fv -> fv_wf space rhs -> in_space space x ->
+  flat space (plusEqualFV space fv rhs) x == flat space fv x + flat space rhs x
+  /\ fv_wf space (plusEqualFV space fv rhs).
+Proof. intros; apply plusEqualFV_flat_lemma; assumption. Qed.
+Print Assumptions plus_flat.
+
+Theorem plus_basis_flat : forall space fv b x,
+  fv_wf space fv -> bf_wf space b -> in_space space x ->
+  flat space (plusEqual space fv b) x == flat space fv x + entry space b x /\ fv_wf space (plusEqual space fv b).
+Proof. exact plusEqual_flat_lemma. Qed.
+Print Assumptions plus_basis_flat.
+
+(* minusEqual as repaired by fixes/C14-minusEqual.patch (clearZero = false) *)
+Theorem minus_flat : forall space fv rhs x,
+  fv_wf space fv -> fv_wf space rhs -> in_space space x ->
+  flat space (minusEqualFV space fv rhs false) x == flat space fv x - flat space rhs x
+  /\ fv_wf space (minusEqualFV space fv rhs false).
+Proof. intros; apply minusEqualFV_flat_lemma; assumption. Qed.
+Print Assumptions minus_flat.
+
+Theorem minus_basis_flat : forall space fv b x,
+  fv_wf space fv -> bf_wf space b -> in_space space x ->
+  flat space (minusEqual space fv b false) x == flat space fv x - entry space b x
+  /\ fv_wf space (minusEqual space fv b false).
+Proof. exact minusEqual_flat_lemma. Qed.
+Print Assumptions minus_basis_flat.
+
+(* clearZero = true erases a basis whose entries are all within 1e-6 of 0: the value moves by <= 1e-6 *)
+Theorem minus_basis_clear_flat : forall space fv b x,
+  fv_wf space fv -> bf_wf space b -> in_space space x ->
+  - (1 # 1000000) <= flat space (minusEqual space fv b true) x - (flat space fv x - entry space b x)
+  /\ flat space (minusEqual space fv b true) x - (flat space fv x - entry space b x) <= 1 # 1000000.
+Proof. exact minusEqual_clear_flat_lemma. Qed.
+Print Assumptions minus_basis_clear_flat.
+
+(* the unrepaired minusEqual adds: 5 - 2 evaluates to 7 *)
+Theorem minus_flat_unrepaired_refuted :
+  exists space fv b x, fv_wf space fv /\ bf_wf space b /\ in_space space x /\
+    flat space fv x == 5 /\ entry space b x == 2 /\
+    flat space (minusEqual_orig space fv b false) x == 7.
+Proof. exact minusEqual_orig_refuted_lemma. Qed.
+Print Assumptions minus_flat_unrepaired_refuted.
+
+(* operator*=(Vector) and getValue(space, value, weights): sum_i w_i * b_i(x) (+ the constant) *)
+Theorem weighted_flat : forall space fv w x,
+  fv_wf space fv -> in_space space x ->
+  (length w = length fv \/ (length w = S (length fv) /\ fv <> [])) ->
+  flat space (scaleW fv w) x ==
+  wsum space fv x w + (if (length w =? S (length fv))%nat then nth (length fv) w 0 else 0).
+Proof. exact scaleW_flat_lemma. Qed.
+Print Assumptions weighted_flat.
+
+Theorem weighted_getValue_flat : forall space fv w x, (length fv <= length w)%nat ->
+  getValueW space fv x w ==
+  wsum space fv x w + (if (length w =? S (length fv))%nat then nth (length fv) w 0 else 0).
+Proof. exact getValueW_spec_lemma. Qed.
+Print Assumptions weighted_getValue_flat.
+
+Theorem scale_flat : forall space fv v x, fv_wf space fv -> in_space space x ->
+  flat space (scale fv v) x == v * flat space fv x.
+Proof. exact scale_flat_lemma. Qed.
+Print Assumptions scale_flat.
+
+(* hypotheses satisfiable: overlapping tags {0,1} and {1,2} on space (2,3,2) *)
+Example ex_algebra_nonvacuous :
+  let space := [2;3;2]%nat in
+  let a := mkBf [0;1]%nat [1;2;3;4;5;6] in
+  let b := mkBf [1;2]%nat [10;20;30;40;50;60] in
+  bf_wf space a /\ bf_wf space b /\ in_space space [1;2;1]%nat /\
+  flat space (plusEqual space [a] b) [1;2;1]%nat == 66 /\
+  flat space (minusEqual space [a] b false) [1;2;1]%nat == -54 /\
+  entry space (bf_dot space a b) [1;2;1]%nat == 360 /\
+  flat space (scaleW [a; b] [2; 3; 4]) [1;2;1]%nat == 196.
+Proof. cbv zeta. repeat split; try discriminate; repeat constructor. Qed.
+
+(* ================================================================================================
+   Dynamic decision networks
+   ================================================================================================ *)
+
+(* graphs built with push from an empty graph have their start ids = prefix sums (graph_wf) *)
+Theorem ddn_push_keeps_layout : forall g p g', graph_wf g -> graph_push g p = PushOk g' ->
+  graph_wf g' /\ gS g' = gS g /\ gA g' = gA g /\ gParents g' = gParents g ++ [p].
+Proof. exact graph_push_wf. Qed.
+Print Assumptions ddn_push_keeps_layout.
+
+(* each joint next state gets the product of its local probabilities *)
+Theorem ddn_product : forall g T s a s1,
+  graph_wf g -> graph_complete g -> action_in_range g a ->
+  getTransitionProbability g T s a s1 ==
+  qprod (map (fun i => local_prob g T i s a (nth i s1 0%nat)) (seq 0 (length (gS g)))).
+Proof. exact ddn_product_lemma. Qed.
+Print Assumptions ddn_product.
+
+(* ... which sum to one over all joint next states when the rows used are distributions *)
+Theorem ddn_sums_to_one : forall g T s a,
+  graph_wf g -> graph_complete g -> action_in_range g a -> rows_stochastic g T s a ->
+  qsum (map (getTransitionProbability g T s a) (all_assign (gS g))) == 1.
+Proof. exact ddn_sums_to_one_lemma. Qed.
+Print Assumptions ddn_sums_to_one.
+
+(* the joint next states summed over are exactly toFactors S 0, toFactors S 1, ... *)
+Theorem all_assignments_in_index_order : forall sizes, Forall (fun sp => (0 < sp)%nat) sizes ->
+  all_assign sizes = map (toFactors sizes) (seq 0 (factorSpace sizes)).
+Proof. exact all_assign_index_order. Qed.
+Print Assumptions all_assignments_in_index_order.
+
+Example ex_ddn_nonvacuous :
+  let g0 := graph_new [2;2]%nat [2]%nat in
+  exists g1 g2,
+    graph_push g0 (mkPS [0%nat] [[0%nat]; [0;1]%nat]) = PushOk g1 /\
+    graph_push g1 (mkPS [0%nat] [[1%nat]; [1%nat]]) = PushOk g2 /\
+    graph_wf g2 /\ graph_complete g2 /\ action_in_range g2 [1%nat] /\
+    let T := [ [[1#2;1#2];[1;0];[1#4;3#4];[0;1];[1#2;1#2];[1;0]] ; [[1#4;3#4];[1;0];[0;1];[1#2;1#2]] ] in
+    rows_stochastic g2 T [0;1]%nat [1%nat] /\
+    getTransitionProbability g2 T [0;1]%nat [1%nat] [1;0]%nat == 1#4.
+Proof.
+  cbv zeta. eexists. eexists. split; [reflexivity|]. split; [reflexivity|].
+  split; [reflexivity|]. split; [reflexivity|].
+  split. { intros i Hi. cbn in Hi. destruct i as [|[|i]]; [cbn; lia | cbn; lia | lia]. }
+  split. { intros i Hi. cbn in Hi. destruct i as [|[|i]]; [vm_compute; reflexivity | vm_compute; reflexivity | lia]. }
+  vm_compute. reflexivity.
+Qed.
